@@ -30,6 +30,19 @@ def convertEntries(entries):
     return result
 
 
+def ownPosition(evaluate):
+    """For nodes that convert, order or render values themselves: an error
+    such a step raises without a position happened at this node."""
+    def evaluate_positioned(self, environment):
+        try:
+            return evaluate(self, environment)
+        except CklRuntimeError as e:
+            if e.pos is None:
+                e.pos = self.pos
+            raise
+    return evaluate_positioned
+
+
 def getCollectionValue(collection, what, pos=None):
     if collection.isList():
         return collection.value
@@ -226,6 +239,7 @@ class NodeAssignDestructuring:
         self.expression = expression
         self.pos = pos
 
+    @ownPosition
     def evaluate(self, environment):
         values = self.expression.evaluate(environment)
         if values.isList():
@@ -500,6 +514,7 @@ class NodeDefDestructuring:
         self.info = info
         self.pos = pos
 
+    @ownPosition
     def evaluate(self, environment):
         value = self.expression.evaluate(environment)
         if not value.isList() and not value.isSet():
@@ -549,6 +564,7 @@ class NodeDeref:
         self.default_value = default_value
         self.pos = pos
 
+    @ownPosition
     def evaluate(self, environment):
         idx = self.index.evaluate(environment)
         value = self.expression.evaluate(environment)
@@ -635,6 +651,7 @@ class NodeDerefAssign:
         self.index = index
         self.pos = pos
 
+    @ownPosition
     def evaluate(self, environment):
         idx = self.index.evaluate(environment)
         container = self.expression.evaluate(environment)
@@ -703,6 +720,7 @@ class NodeDerefInvoke:
         self.names.append(name)
         self.args.append(arg)
 
+    @ownPosition
     def evaluate(self, environment):
         obj_ = self.objectExpr.evaluate(environment)
         if obj_.isObject():
@@ -763,6 +781,7 @@ class NodeDerefSlice:
         self.end = end
         self.pos = pos
 
+    @ownPosition
     def evaluate(self, environment):
         value = self.expression.evaluate(environment)
         start = self.start.evaluate(environment)
@@ -845,6 +864,7 @@ class NodeFor:
         self.pos = pos
         self.what = what
 
+    @ownPosition
     def evaluate(self, environment):
         # the loop variables live in the enclosing scope while the loop
         # runs; whatever that scope bound to these names before is put back
@@ -1325,6 +1345,7 @@ class NodeListComprehension:
     def setCondition(self, conditionExpr):
         self.conditionExpr = conditionExpr
 
+    @ownPosition
     def evaluate(self, environment):
         result = ValueList()
         localEnv = environment.newEnv()
@@ -1402,6 +1423,7 @@ class NodeListComprehensionParallel:
     def setCondition(self, conditionExpr):
         self.conditionExpr = conditionExpr
 
+    @ownPosition
     def evaluate(self, environment):
         result = ValueList()
         localEnv = environment.newEnv()
@@ -1492,6 +1514,7 @@ class NodeListComprehensionProduct:
     def setCondition(self, conditionExpr):
         self.conditionExpr = conditionExpr
 
+    @ownPosition
     def evaluate(self, environment):
         result = ValueList()
         localEnv = environment.newEnv()
@@ -1624,6 +1647,7 @@ class NodeMapComprehension:
     def setCondition(self, conditionExpr):
         self.conditionExpr = conditionExpr
 
+    @ownPosition
     def evaluate(self, environment):
         result = ValueMap()
         localEnv = environment.newEnv()
@@ -1788,6 +1812,7 @@ class NodeRequire:
         self.symbols = symbols
         self.pos = pos
 
+    @ownPosition
     def evaluate(self, environment):
         modules = environment.getModules()
         # resolve module file, identifier and name
@@ -2003,6 +2028,7 @@ class NodeSetComprehension:
     def setCondition(self, conditionExpr):
         self.conditionExpr = conditionExpr
 
+    @ownPosition
     def evaluate(self, environment):
         result = ValueSet()
         localEnv = environment.newEnv()
@@ -2071,6 +2097,7 @@ class NodeSetComprehensionParallel:
     def setCondition(self, conditionExpr):
         self.conditionExpr = conditionExpr
 
+    @ownPosition
     def evaluate(self, environment):
         result = ValueSet()
         localEnv = environment.newEnv()
@@ -2157,6 +2184,7 @@ class NodeSetComprehensionProduct:
     def setCondition(self, conditionExpr):
         self.conditionExpr = conditionExpr
 
+    @ownPosition
     def evaluate(self, environment):
         result = ValueSet()
         localEnv = environment.newEnv()
